@@ -132,7 +132,12 @@ func kRevisit(args []string) (string, string) {
 				cleanRef = false
 			}
 			if origStrictOK && cleanRef && (perr != nil || (val != nil && !val.Valid())) {
-				viol(fmt.Sprintf("c20-strict revisit fails strict validation after round trip: %v %v", perr, val))
+				sig := "c20-strict"
+				if hasEncWord(hdr) {
+					// an encoded-word in a header value set through the API does not survive write-then-parse: finding C19-F15
+					sig = "c20-strict-encoded-word"
+				}
+				viol(fmt.Sprintf("%s revisit fails strict validation after round trip: %v %v", sig, perr, val))
 			}
 		}
 	}
